@@ -424,3 +424,34 @@ Definition coerce_skeleton : list cstmt :=
   [CIfSchemaEqReturn; CIfSetNeRaiseType; CIfNamesNeSelect;
    CIfSchemaNeCast [s "ArrowInvalid"; s "ArrowNotImplementedError"; s "ValueError"]; CReturnBatch].
 Definition emit_twice_msg : str := s "Only one data batch may be emitted per call".
+
+(* ------------------------------------------------------------------ vocabulary of the C10 statements *)
+(* the output of the j-th process() call of an exchange *)
+Definition out_of (sts : list step) (j : nat) : batch := step_batch (nth_error sts j).
+
+(* n inputs were sent: exactly one output per input, in order, each the batch its own process() call emitted -- up to
+   the first call that fails (finish(), no batch, two batches, an exception), which is reported as the one error *)
+Definition one_per_input (sts : list step) (n : nat) (t : list event) : Prop :=
+  exists j, (j <= n)%nat /\ batches_of t = map (out_of sts) (seq 0 j)
+    /\ (forall i, (i < j)%nat -> exists fs fl, exec_step false (nth_error sts i) = SFrames fs fl)
+    /\ ((j = n /\ filter is_end t = []) \/
+        ((j < n)%nat /\ exists e, exec_step false (nth_error sts j) = SErr e /\ filter is_end t = [err_event e])).
+
+(* a step that just emits b *)
+Definition emits_only (x : step) (b : batch) : Prop := sraise x = None /\ fin x = false /\ emit x = Some b.
+
+Definition cancels (cs : list call) : nat := List.length (filter is_cancel cs).
+Definition processes (cs : list call) : list call := filter is_process cs.
+
+(* what an operation on a cancelled session looks like: nothing dispatched, no data, and a use is answered by RpcError *)
+Definition refusal (o : op) (sg : seg) : Prop :=
+  snd sg = [] /\ batches_of (fst sg) = [] /\
+  match o with
+  | OIter k => fst sg = if is_zero k then [] else [refused]      (* k = 0: iter() without next() runs no code *)
+  | OExch _ => fst sg = [refused]
+  | OResume => fst sg = [refused] \/ fst sg = [EDone]            (* [EDone]: the generator had finished before *)
+  | OClose | OCancel => fst sg = []
+  end.
+
+(* the HTTP session has been cancelled (cancel() sets _cancelled and _finished) *)
+Definition hK (st : hst) : bool := h_canc st && h_fin st.
